@@ -1,13 +1,20 @@
 """C18 - measurement-error modelling weights without bias and judges consistency sanely.
 
-1. Coq: coq/SelfCal/{Weight,Lsq,LsqLink,Guard}*.v and Properties_C18.v are rebuilt (obligations).
+1. Coq: coq/SelfCal/{Weight,Lsq,LsqLink,Guard,C18MError,Pvalue}*.v and Properties_C18.v are rebuilt (obligations).
 2. Ties (every run, white-box build of the unmodified solve_simple / solve_auto sources):
    * the weight vector returned by _vnacal_new_solve_calc_weights against the extracted
      WeightModel.calc_weights (which equation's measurement every element was computed from);
    * the element each consumer multiplies an equation with, observed by replacing the weights
      with index markers, against WeightModel.simple_index / auto_index;
-   * degrees of freedom: recovered from the tapped exp(-chisq/2) of chisq_pvalue and the returned
-     p-value on noisy data, against the extracted WeightModel.dof;
+   * _vnacal_new_solve_calc_pvalue, every input dumped by the white-box tap: the leakage sample count of
+     every cell against WeightModel.leak_count (cells with 0, 1 and more samples), the degrees of freedom
+     the library used (tapped exp(-chisq/2) + returned p-value; the df < 1 exit) against
+     WeightModel.dof_of_standards, the statistic against PvalueModel.calc_stat in exact rationals, the
+     returned p-value against PvalueModel.chisq_pvalue, 1 / w^2 against PvalueModel.weight2 with the STORED
+     noise model;
+   * vnacal_new_set_m_error: histories of 1..4 calls (every ordered pair of call kinds, random longer
+     ones): return value and stored vector after every call against the extracted
+     C18MErrorModel.run_args / returns (m_error_last_call_wins);
    * GuardModel: which V matrices _vnacal_new_solve_init allocates (shape of every standard's vector)
      against the extracted init_vvec; the unmodified save_v_matrices / restore_v_matrices run on the
      real solve state with markers (buffer of exactly the caller's size, under the sanitizers)
@@ -37,7 +44,8 @@ from C02 import Recorder, check_common, crash_sig
 
 VFILES = ["SelfCal/WeightModel.v", "SelfCal/WeightProofs.v", "SelfCal/LsqModel.v", "SelfCal/LsqProofs.v",
           "SelfCal/LsqLinkModel.v", "SelfCal/LsqLinkProofs.v", "SelfCal/WeightQI.v", "SelfCal/GuardModel.v",
-          "SelfCal/GuardProofs.v", "Properties_C18.v"]
+          "SelfCal/GuardProofs.v", "SelfCal/C18MErrorModel.v", "SelfCal/C18MErrorProofs.v", "SelfCal/PvalueModel.v",
+          "SelfCal/PvalueProofs.v", "SelfCal/PvalueQI.v", "Properties_C18.v"]
 
 SIG_NF = [1e-6, 1e-4, 1e-2]
 SIG_TR = [None, 0.0, 1e-5, 1e-3, 1e-1]
@@ -379,71 +387,360 @@ def part_weight_tie(ctx, rec, wb, drv):
 
 
 
-# ------------------------------------------------------------------------------------------ dof tie
-def part_dof_tie(ctx, rec, wb, drv):
-    """degrees of freedom used by _vnacal_new_solve_calc_pvalue (recovered from the tapped
-    exp(-chisq/2) and the returned p-value) vs WeightModel.dof"""
-    cases = [(typ, 2) for typ in G.TYPES] + [("UE14", 3), ("TE10", 3), ("T8", 1)]
+# ------------------------------------------------------------------------------------------ set_m_error histories
+def part_merror_histories(ctx, rec, exe, drv):
+    """vnacal_new_set_m_error as a state machine (coq/SelfCal/C18MErrorModel.v, Section Args): histories of
+    1..4 calls on ONE vnacal_new_t -- one point / calibration grid / own grid, with and without
+    sigma_tr_vector, NULL / NULL, and calls that must be rejected -- the return value of every call and
+    the stored vector after every call against the extracted run_args / returns over exact rationals."""
+    rng = ctx.rng
+    kinds = G.MERR_VALID + ["invalid"]
+    hists = []
+    # every ordered pair of kinds (the second call sees the vector the first one left), then random
+    # histories of 1, 3 and 4 calls
+    for a in kinds:
+        for b in kinds:
+            hists.append([a, b])
+    for a in kinds:
+        hists.append([a])
+    nrand = 40 if ctx.tier == "quick" else 400
+    for _ in range(nrand):
+        hists.append([rng.choice(kinds) for _ in range(rng.choice([3, 4]))])
+    scs, queries = [], []
+    for i, hk in enumerate(hists):
+        r = random.Random(rng.getrandbits(48))
+        typ = r.choice(G.TYPES)
+        n = r.choice([1, 2])
+        nfq = r.choice([1, 2, 3, 4])
+        freqs = G.default_freqs(nfq)
+        calls = [G.gen_merror_call(r, freqs, k if k != "invalid" else r.choice(G.MERR_INVALID)) for k in hk]
+        sc = G.merror_history_scenario("mh%d_%s" % (i, "-".join(c["kind"] for c in calls)), typ, n, freqs, calls)
+        sc.calls = calls
+        scs.append(sc)
+        queries.append(G.merror_model_query(freqs, calls, fresh_seed=i))
+    res = G.run_batch(ctx, exe, scs)
+    rcq, mout, merr_ = vplib.sh([drv], input="\n".join(queries) + "\n", timeout=600)
+    mlines = [l for l in mout.splitlines() if l.startswith("merra")]
     ok, detail = True, ""
-    bad = None
-    for (typ, n) in cases:
-        rng = random.Random(ctx.rng.getrandbits(48))
+    if rcq != 0 or len(mlines) != len(scs):
+        ctx.obligation("tie:set_m_error_histories_vs_C18MErrorModel.run_args", False, "model driver failed: %s" % merr_[-300:])
+        return False
+    ncmp = 0
+    seen_pairs = set()
+    for sc, ml in zip(scs, mlines):
+        r = res.get(sc.sid)
+        if r is None:
+            continue
+        if crash_sig(r) is not None:
+            check_common(rec, sc, r, "set_m_error history")
+            ok = False
+            detail = detail or "%s: harness fault" % sc.sid
+            continue
+        model = G.parse_merra(ml)
+        ops = [o for o in r["ops"] if o.get("op") == "merror"]
+        mv = r.get("merrorvec", [])
+        if len(ops) != len(sc.calls) or len(mv) != len(sc.calls):
+            rec.add({"kind": "harness", "where": "merror history"}, "unexpected harness output", sc, r)
+            ok = False
+            continue
+        ctx.count(("merror_history", sc.sid))
+        ctx.traces_validated += 1
+        ncmp += 1
+        spline_state = False        # the stored vector came out of the interpolation (tolerance 1e-8)
+        for k, c in enumerate(sc.calls):
+            want_ok, want_vec = model[k]
+            got_ok = ops[k].get("rc") == "0"
+            if k > 0:
+                seen_pairs.add((sc.calls[k - 1]["kind"], c["kind"]))
+            if want_ok and c["kind"] != "off":
+                spline_state = c["spline"]
+            elif want_ok:
+                spline_state = False
+            what = None
+            if got_ok != want_ok:
+                what = ("call %d (%s) returned %s, the model of the validation says %s"
+                        % (k + 1, c["cmd"][:80], "0" if got_ok else "-1", "0" if want_ok else "-1"))
+            else:
+                got = mv[k]
+                if (got is None) != (want_vec is None):
+                    what = ("after call %d (%s) the stored vector is %s, model %s"
+                            % (k + 1, c["kind"], "absent" if got is None else "present", "absent" if want_vec is None else "present"))
+                elif got is not None:
+                    for f, ((gn, gt), (wn, wt_)) in enumerate(zip(got, want_vec)):
+                        tol = 1e-8 if spline_state else 0.0
+                        bad_n = abs(Fraction(gn) - wn) > Fraction(tol) * abs(wn)
+                        bad_t = abs(Fraction(gt) - wt_) > Fraction(tol) * max(abs(wt_), abs(wn) * Fraction(1, 10 ** 6))
+                        if bad_n or bad_t:
+                            what = ("after call %d of the history %s the stored (sigma_nf, sigma_tr) at calibration frequency %d is "
+                                    "(%.9g, %.9g); the last accepted call alone stores (%.9g, %.9g)"
+                                    % (k + 1, [x["kind"] for x in sc.calls[:k + 1]], f, gn, gt, float(wn), float(wt_)))
+                            break
+            if what is not None:
+                ok = False
+                detail = detail or "%s: %s" % (sc.sid, what)
+                rec.add({"kind": "refuted", "theorem": "m_error_last_call_wins", "calls": "->".join(x["kind"] for x in sc.calls[:k + 1])},
+                        "vnacal_new_set_m_error, history of %d calls on one vnacal_new_t: %s" % (k + 1, what), sc, r)
+                break
+        if len(ctx.samples) < 6:
+            ctx.sample({"scenario": sc.sid, "calls": [c["kind"] for c in sc.calls], "returns": [m[0] for m in model],
+                        "stored_after_last": None if model[-1][1] is None else [(float(a), float(b)) for a, b in model[-1][1]][:2]})
+    ctx.extra["merror_histories"] = {"histories": len(scs), "compared": ncmp, "ordered_pairs_of_kinds": len(seen_pairs)}
+    if ncmp < len(scs) * 9 // 10 and ok:
+        ok, detail = False, "only %d of %d histories were compared" % (ncmp, len(scs))
+    ctx.obligation("tie:set_m_error_histories_vs_C18MErrorModel.run_args", ok, detail)
+    return ok
+
+
+# ------------------------------------------------------------------------------------------ p-value ties
+def _df_from_p(p, x):
+    """invert p = exp(-x) sum_{i<k} x^i / i! for k (df = 2 k); None when not unambiguous"""
+    term, acc = 1.0, 0.0
+    vals = []
+    for k in range(1, 400):
+        acc += term
+        vals.append(math.exp(-x) * acc)
+        term *= x / k
+        if term < 1e-18 * acc and k > x:
+            break
+    hits = [k for k, q in enumerate(vals, 1) if abs(q - p) <= 1e-9 * max(p, 1e-300)]
+    if len(hits) != 1:
+        return None
+    k = hits[0]
+    for j in (k - 1, k + 1):
+        if 1 <= j <= len(vals) and abs(vals[j - 1] - p) <= 1e-6 * max(p, 1e-300):
+            return None                    # the neighbours are too close to tell apart
+    return 2 * k
+
+
+def part_pvalue_tie(ctx, rec, wb, drv):
+    """_vnacal_new_solve_calc_pvalue against coq/SelfCal/PvalueModel.v / WeightModel.v on noisy data, every
+    input dumped by the white-box tap:
+      * vnlt_count of every off-diagonal leakage cell vs WeightModel.leak_count of the per-standard
+        (measured, connected) flags -- cells with NO sample (every standard connects the two ports), with
+        exactly one, with more;
+      * the degrees of freedom the library used (from the tapped exp(-chisq/2) and the returned p-value;
+        "no call of exp and p = 1" = the df < 1 exit) vs WeightModel.dof_of_standards;
+      * the statistic itself (2 * the tapped argument of exp) vs PvalueModel.calc_stat evaluated in exact
+        rationals on the dumped factors of every term, the solved x, the stored (sigma_nf, sigma_tr) and the
+        samples of every leakage cell (also vnlt_sum / vnlt_sumsq vs leak_of_samples);
+      * the returned p-value vs PvalueModel.chisq_pvalue with exp answered by the library's own value;
+      * every element of w_vector vs PvalueModel.weight2 of the equation's own measurement (1 / w^2)."""
+    rng = ctx.rng
+    LEAK = ("TE10", "UE10", "UE14", "E12")
+    cases = []
+    for typ in G.TYPES:
+        cases.append(("general", typ, 2, None))
+    cases += [("general", "UE14", 3, None), ("general", "TE10", 3, None), ("general", "T8", 1, None)]
+    for typ in LEAK:
+        # every standard connects both ports: NO leakage sample in any cell; then exactly one; then several
+        cases.append(("pattern", typ, 2, {"nfull": rng.choice([3, 4, 5]), "pairs": (), "nsep": 0}))
+        cases.append(("pattern", typ, 2, {"nfull": rng.choice([3, 4]), "pairs": (), "nsep": 1}))
+        cases.append(("pattern", typ, 2, {"nfull": 3, "pairs": (), "nsep": rng.choice([2, 3])}))
+        # 3 ports: cells with 0, 1 and 2 samples side by side
+        cases.append(("pattern", typ, 3, {"nfull": 3, "pairs": ((1, 2),), "nsep": 0}))
+        cases.append(("pattern", typ, 3, {"nfull": 3, "pairs": tuple(rng.sample([(1, 2), (2, 3), (1, 3)], 2)), "nsep": 0}))
+        cases.append(("unequal", typ, rng.choice([2, 3]), {"extra": tuple(rng.sample(range(0, 4), 3))}))
+    if ctx.tier != "quick":
+        for _ in range(40):
+            typ = rng.choice(LEAK)
+            n = rng.choice([2, 3])
+            allp = [(a, b) for a in range(1, n + 1) for b in range(a + 1, n + 1)]
+            cases.append(("pattern", typ, n, {"nfull": rng.choice([3, 4]), "pairs": tuple(rng.sample(allp, rng.randrange(0, len(allp) + 1))),
+                                              "nsep": rng.choice([0, 0, 1, 2])}))
+    oks = {"count": True, "df": True, "stat": True, "pval": True, "w": True}
+    det = {k: "" for k in oks}
+    seen_counts = set()
+    ncmp = {"df": 0, "stat": 0, "pval": 0, "w": 0}
+    # ---- phase 1: run the scenarios, collect the dumps and the model queries
+    items = []
+    nbig = 0
+    for ci, (fam, typ, n, arg) in enumerate(cases):
+        r = random.Random(rng.getrandbits(48))
         snf, strk = 1e-3, 1e-2
-        sc = G.build_general(rng, "dof_%s_%d" % (typ, n), typ, n, 1, 0, 0, excess=rng.choice([2, 5]),
-                             noise=(snf, strk, random.Random(rng.getrandbits(48))))
+        noise = (snf, strk, random.Random(r.getrandbits(48)))
+        if fam == "general":
+            sc = G.build_general(r, "pv%d_%s_%d" % (ci, typ, n), typ, n, 1, 0, 0, excess=r.choice([2, 5]), noise=noise)
+        elif fam == "unequal":
+            sc = G.build_unequal_columns(r, "pvu%d_%s_%d_%s" % (ci, typ, n, "".join(map(str, arg["extra"][:n]))), typ, n,
+                                         list(arg["extra"][:n]), noise=noise)
+        else:
+            sc = G.build_leak_pattern(r, "pvl%d_%s_%d_f%d_p%s_s%d" % (ci, typ, n, arg["nfull"], "".join("%d%d" % p for p in arg["pairs"]) or "0",
+                                                                       arg["nsep"]), typ, n, arg["nfull"], arg["pairs"], arg["nsep"], noise=noise)
+        # a history: an earlier declaration with another tracking term, then the one that counts
+        if r.random() < 0.5:
+            sc.cmd("merror 1 - %s %s" % (G.fnum(snf * 3), G.fnum(0.2)))
         sc.cmd("merror 1 - %s %s" % (G.fnum(snf), G.fnum(strk)))
         sc.cmd("pvalue 1e-300")
         sc.cmd("itlimit 100")
-        sc.cmd("wb 0 0 0")
+        sc.cmd("wb 0 0 2")
         sc.solve()
         rc, out, err = vplib.sh([wb], input=sc.text(), timeout=120, env=G.run_env(ctx))
         if rc != 0:
             sig = vplib.asan_signature(err) or {"kind": "fault", "error": "exit %d" % rc, "function": None}
             rec.add(sig, "white-box run failed (%s): %s" % (sc.sid, err[-300:]), sc, {"stderr": err})
-            ok = False
+            for k in oks:
+                oks[k] = False
+                det[k] = det[k] or "%s: white-box run failed" % sc.sid
             continue
-        res, _ = G.parse_output(out)
-        s = res[sc.sid]["solve"][0] if res[sc.sid]["solve"] else None
-        exps = [float(l.split()[2]) for l in out.splitlines() if l.startswith("wb exp ")]
+        calls = G.parse_pvalue_inputs(out)
         _, weights, eqm, _ = G.parse_wb(out)
-        if s is None or not exps or not eqm or s["pvalues"][0] < 0:
+        if not calls or calls[-1]["p"] is None:
+            continue                        # the solve failed before the consistency test (generator's set not determining)
+        call = calls[-1]
+        ctx.count(("pvalue_tie", fam, typ, n, str(arg)))
+        p = call["p"]
+        if call["exp"]:
+            x = -call["exp"][-1]
+            got_df = _df_from_p(p, x)
+        else:
+            x = None
+            got_df = "<1" if p == 1.0 else None
+        q = ["dofstd %d %d %s %d %s" % (call["unknowns"], len(call["eqs"]), " ".join(map(str, call["eqs"])), len(call["cells"]),
+                                        " ".join("%d %s" % (len(std), " ".join("%d%d" % (g, c) for g, c in std)) for _, _, std in call["cells"]))]
+        # the exact-rational evaluation of the statistic is slow in the extracted arithmetic: in the quick
+        # tier at most three of the larger systems (all of them in the thorough tier)
+        big = sum(call["eqs"]) > 24
+        do_stat = ctx.tier != "quick" or not big or nbig < 3
+        if do_stat:
+            nbig += 1 if big else 0
+            q.append(G.pvstat_query(call))
+        do_p = bool(x is not None and call["expval"] and isinstance(got_df, int) and got_df >= 2)
+        if do_p:
+            q.append("chisqp %d %s %s" % (got_df, G.qstr(2.0 * x), G.qstr(call["expval"][-1])))
+        sel, flat_m, w = [], [], []
+        if weights and eqm and call["noise"]:
+            w = weights[-1]["w"]
+            flat_m = [m for s_ in sorted(eqm[-1]) for m in eqm[-1][s_]]
+            if len(flat_m) == len(w):
+                sel = list(range(len(w)))
+                if len(sel) > 12:
+                    sel = r.sample(sel, 12)
+                q += ["weight2 %s %s %s %s" % (G.qstr(call["noise"][0]), G.qstr(call["noise"][1]),
+                                               G.qstr(flat_m[i].real), G.qstr(flat_m[i].imag)) for i in sel]
+        items.append({"sc": sc, "call": call, "x": x, "got_df": got_df, "q": q, "do_stat": do_stat, "do_p": do_p,
+                      "sel": sel, "flat_m": flat_m, "w": w})
+    # ---- phase 2: the extracted model, a few processes side by side
+    from concurrent.futures import ThreadPoolExecutor
+    with ThreadPoolExecutor(max_workers=4) as pool:
+        answers = list(pool.map(lambda it: model_query(drv, it["q"]), items))
+    # ---- phase 3: compare
+    late_p = []
+    for it, ml in zip(items, answers):
+        sc, call, x, got_df = it["sc"], it["call"], it["x"], it["got_df"]
+        p = call["p"]
+        if ml is None or len(ml) != len(it["q"]):
+            for k in oks:
+                oks[k] = False
+                det[k] = det[k] or "%s: model driver failed" % sc.sid
             continue
-        p, x = s["pvalues"][0], -exps[-1]
-        # invert p = exp(-x) sum_{i<k} x^i / i!
-        term, acc, got = 1.0, 0.0, None
-        for k in range(1, 400):
-            acc += term
-            q = math.exp(-x) * acc
-            if abs(q - p) <= 1e-9 * max(p, 1e-12):
-                got = 2 * k
-                break
-            term *= x / k
-        lens = [len(eqm[0][i]) for i in sorted(eqm[0])]
-        unk = int(s["xlen"]) // int(s["sys"])
-        leak = []
-        if typ in ("TE10", "UE10", "UE14", "E12"):
-            leak = [sc.meta["nrefl"]] * (n * (n - 1))
-        q = model_query(drv, ["dof %d %d %s %d %s" % (unk, len(lens), " ".join(map(str, lens)), len(leak),
-                                                       " ".join(map(str, leak)))])
-        ctx.count(("dof_tie", typ, n))
-        if q is None or len(q) != 1:
-            ok = False
-            detail = detail or "model driver failed"
-            continue
-        want = int(q[0][0])
+        ml = list(ml)
+        dofl = ml.pop(0)
+        want_df = int(dofl[0])
+        want_counts = [int(v) for v in dofl[1:]]
+        got_counts = [cnt for _, cnt, _ in call["cells"]]
+        seen_counts.update(got_counts)
         ctx.traces_validated += 1
-        ctx.sample({"scenario": sc.sid, "equations": lens, "unknowns": unk, "leak_samples": leak[:2],
-                    "df_library": got, "df_model": want, "pvalue": p})
-        if got != want:
-            ok = False
-            if not detail:
-                detail = "%s: library used %s degrees of freedom (p = %g, chisq = %g), model %d" % (sc.sid, got, p, 2 * x, want)
-                bad = sc
-    ctx.obligation("tie:degrees_of_freedom_vs_WeightModel.dof", ok, detail)
-    if not ok and bad is not None:
-        rec.add({"kind": "disagreement", "op": "_vnacal_new_solve_calc_pvalue", "class": "degrees of freedom"},
-                "degrees of freedom of the consistency test: " + detail, bad, None)
-    return ok
+        if got_counts != want_counts:
+            oks["count"] = False
+            if not det["count"]:
+                det["count"] = "%s: vnlt_count per cell %s, model leak_count %s" % (sc.sid, got_counts, want_counts)
+                rec.add({"kind": "disagreement", "op": "_vnacal_new_solve_start_frequency", "class": "leakage sample count"},
+                        "leakage samples: " + det["count"], sc, None)
+        # ---- df the library used
+        want_df_s = "<1" if want_df < 1 else want_df
+        if got_df is not None:
+            ncmp["df"] += 1
+            ctx.sample({"scenario": sc.sid, "equations": call["eqs"], "unknowns": call["unknowns"], "leak_counts": got_counts,
+                        "df_library": got_df, "df_model": want_df, "pvalue": p})
+            if got_df != want_df_s:
+                oks["df"] = False
+                if not det["df"]:
+                    det["df"] = ("%s: equation counts %s, %d unknowns per system, leakage sample counts %s: the library judged the "
+                                 "statistic against %s degrees of freedom (p = %g%s), the model has %d"
+                                 % (sc.sid, call["eqs"], call["unknowns"], got_counts, got_df, p,
+                                    "" if x is None else ", chisq = %g" % (2 * x), want_df))
+                    rec.add({"kind": "disagreement", "op": "_vnacal_new_solve_calc_pvalue", "class": "degrees of freedom"},
+                            "degrees of freedom of the consistency test: " + det["df"], sc, None)
+        # ---- the statistic, exact rationals
+        if it["do_stat"]:
+            st = ml.pop(0)
+            m_chisq, m_df = G.qparse(st[0]), int(st[1])
+            if m_df != want_df:
+                oks["stat"] = False
+                det["stat"] = det["stat"] or "%s: calc_stat df %d differs from dof_of_standards %d" % (sc.sid, m_df, want_df)
+            lk = st[2:]
+            for ci_, (cell, cnt, sm, ssq, _) in enumerate(call["leak"]):
+                mc, mre, mim, msq = int(lk[4 * ci_]), float(G.qparse(lk[4 * ci_ + 1])), float(G.qparse(lk[4 * ci_ + 2])), float(G.qparse(lk[4 * ci_ + 3]))
+                scale = max(abs(complex(*sm)), math.sqrt(abs(ssq)), 1e-300)
+                if mc != cnt or abs(complex(mre, mim) - complex(*sm)) > 1e-12 * scale or abs(msq - ssq) > 1e-12 * max(ssq, 1e-300):
+                    oks["stat"] = False
+                    if not det["stat"]:
+                        det["stat"] = ("%s: leakage cell %s: library (count %d, sum %s, sumsq %.17g), leak_of_samples (%d, %s, %.17g)"
+                                       % (sc.sid, cell, cnt, sm, ssq, mc, (mre, mim), msq))
+                        rec.add({"kind": "disagreement", "op": "_vnacal_new_solve_start_frequency", "class": "leakage sums"}, det["stat"], sc, None)
+            if x is not None:
+                lib_chisq = 2.0 * x
+                ncmp["stat"] += 1
+                if abs(float(m_chisq) - lib_chisq) > 1e-7 * max(lib_chisq, 1e-12):
+                    oks["stat"] = False
+                    if not det["stat"]:
+                        det["stat"] = ("%s: chi-square statistic of the library %.12g, PvalueModel.calc_stat on the same terms, x and "
+                                       "noise model %.12g" % (sc.sid, lib_chisq, float(m_chisq)))
+                        rec.add({"kind": "disagreement", "op": "_vnacal_new_solve_calc_pvalue", "class": "statistic"}, det["stat"], sc, None)
+        # ---- chisq_pvalue with the library's own exp value, at the df the library used (when no df
+        #      reproduces the returned p-value: at the model's df, second batch below)
+        if not it["do_p"] and x is not None and call["expval"] and want_df >= 2:
+            late_p.append((it, want_df))
+        if it["do_p"]:
+            pm = float(G.qparse(ml.pop(0)[0]))
+            ncmp["pval"] += 1
+            if abs(pm - p) > 1e-11 * max(p, 1e-300):
+                oks["pval"] = False
+                if not det["pval"]:
+                    det["pval"] = "%s: chisq_pvalue(%d, %.17g) = %.17g, model recurrence %.17g" % (sc.sid, got_df, 2.0 * x, p, pm)
+                    rec.add({"kind": "disagreement", "op": "chisq_pvalue", "class": "recurrence"}, det["pval"], sc, None)
+        # ---- the weights: 1 / w^2 = weight2 of the equation's own measurement, stored noise model
+        if it["sel"]:
+            ncmp["w"] += 1
+            w, flat_m = it["w"], it["flat_m"]
+            for i, row in zip(it["sel"], ml):
+                w2 = float(G.qparse(row[0]))
+                if w[i] == 0 or abs(1.0 / (w[i] * w[i]) - w2) > 1e-13 * w2:
+                    oks["w"] = False
+                    if not det["w"]:
+                        det["w"] = ("%s: w_vector[%d] = %.17g (1 / w^2 = %.17g); sigma_nf^2 + sigma_tr^2 |m|^2 with the stored "
+                                    "(%.9g, %.9g) and m = %s is %.17g" % (sc.sid, i, w[i], 1.0 / (w[i] * w[i]) if w[i] else float("inf"),
+                                                                        call["noise"][0], call["noise"][1], flat_m[i], w2))
+                        rec.add({"kind": "disagreement", "op": "_vnacal_new_solve_calc_weights", "class": "weight formula"}, det["w"], sc, None)
+                    break
+    if late_p:
+        lp = model_query(drv, ["chisqp %d %s %s" % (wdf, G.qstr(2.0 * it["x"]), G.qstr(it["call"]["expval"][-1])) for it, wdf in late_p])
+        for (it, wdf), row in zip(late_p, lp or []):
+            pm, p = float(G.qparse(row[0])), it["call"]["p"]
+            ncmp["pval"] += 1
+            if abs(pm - p) > 1e-11 * max(p, 1e-300):
+                oks["pval"] = False
+                if not det["pval"]:
+                    det["pval"] = ("%s: the library returned p = %.17g for chisq = %.17g (no even number of degrees of freedom reproduces it); "
+                                   "the model has %d degrees of freedom and chisq_pvalue gives %.17g" % (it["sc"].sid, p, 2.0 * it["x"], wdf, pm))
+                    rec.add({"kind": "disagreement", "op": "chisq_pvalue", "class": "recurrence"}, det["pval"], it["sc"], None)
+    ctx.extra["pvalue_tie"] = dict(ncmp, leak_counts_seen=sorted(seen_counts))
+    need = {0, 1}
+    if not (need <= seen_counts and any(c > 1 for c in seen_counts)):
+        for k in ("count", "df"):
+            if oks[k]:
+                oks[k] = False
+                det[k] = "the scenarios did not produce leakage cells with 0, 1 and more samples: %s" % sorted(seen_counts)
+    for k, lim in (("df", 20), ("stat", 20), ("pval", 15), ("w", 20)):
+        if oks[k] and ncmp[k] < lim:
+            oks[k] = False
+            det[k] = "only %d comparisons" % ncmp[k]
+    ctx.obligation("tie:leakage_sample_counts_vs_WeightModel.leak_count", oks["count"], det["count"])
+    ctx.obligation("tie:degrees_of_freedom_vs_WeightModel.dof", oks["df"], det["df"])
+    ctx.obligation("tie:chi_square_statistic_vs_PvalueModel.calc_stat", oks["stat"], det["stat"])
+    ctx.obligation("tie:chisq_pvalue_vs_PvalueModel.chisq_pvalue", oks["pval"], det["pval"])
+    ctx.obligation("tie:weight_formula_vs_PvalueModel.weight2", oks["w"], det["w"])
+    return all(oks.values())
 
 # ------------------------------------------------------------------------------------------ V matrices walk
 def part_vguard(ctx, rec, wb, drv, nextra):
@@ -670,12 +967,17 @@ def run(ctx):
     ctx.trusted_base = [
         "Coq 8.16.1 kernel (coqc); vm_compute for the concrete instances; no native_compute",
         "axioms: none (Print Assumptions: Closed under the global context for every theorem of Properties_C18.v)",
-        "hand-written models coq/SelfCal/WeightModel.v, LsqLinkModel.v, GuardModel.v, tied to the code by white-box correspondence on every run; "
-        "LsqModel.v is generic weighted least-squares algebra (not tied)",
+        "hand-written models coq/SelfCal/WeightModel.v, LsqLinkModel.v, GuardModel.v, C18MErrorModel.v, PvalueModel.v, tied to the code by "
+        "white-box correspondence on every run; LsqModel.v is generic weighted least-squares algebra (not tied)",
+        "PvalueModel: 1/sqrt is an abstract function rsqrt (premises where used: rsqrt(a)^2 a = 1 for a > 0; decreasing); exp, erfc, sqrt, pi "
+        "of chisq_pvalue are abstract (premise of chisq_even_branch_at_zero: exp 0 = 1; the p-value-1 theorems need none); the real numbers "
+        "are exact rationals",
+        "C18MErrorModel Section Args: the spline interpolation (C10's subject) and the order relation are abstract Section variables; the "
+        "T16/U16 full-S walk is a boolean of the environment; malloc failure is not modelled",
         "the squared modulus N of LsqModel is a parameter (Section variable) with N z >= 0, N z = 0 -> z = 0, N 0 = 0 (proved for Q[i])",
-        "the weight function wt of WeightModel / LsqLinkModel (1 / sqrt(sigma_nf^2 + sigma_tr^2 |m|^2)) is an abstract Section variable "
-        "(premise: no zero value); its formula is compared numerically by the w_vector tie, it is in no theorem; the chi-square tail "
-        "function is a parameter of pvalue_of",
+        "the weight function wt of WeightModel / LsqLinkModel is an abstract Section variable (premise: no zero value) in the alignment "
+        "theorems; exact_data_*_weight_formula instantiate it with PvalueModel.weight (the premise follows from sigma_nf > 0); the "
+        "chi-square tail function is a parameter of WeightModel.pvalue_of and modelled as coded in PvalueModel.chisq_pvalue",
         "the coefficient rows of LsqLinkModel are a parameter (with the model on they carry V-matrix factors; the V-matrix update maps are not modelled)",
         "GuardModel: the well-formedness premises of save / restore are those init_vvec_wf proves of the model of _vnacal_new_solve_init "
         "(tied); that the QR solve returns the least-squares minimiser is C19's subject",
@@ -683,9 +985,9 @@ def run(ctx):
     ]
     ctx.assumptions = ["exact field arithmetic stands for binary64 arithmetic (rounding is outside every theorem)",
                        "not proved: rejection rates under Gaussian noise and for 100-sigma outliers (thorough tier, support only); "
-                       "chi-square tail function (erfc / exp recurrences) is not modelled"]
+                       "the V-matrix update maps are not modelled (the exact-data theorems take the terms of the equations as given)"]
     ctx.rule = ("one evaluation = one calibration scenario (three solves: unweighted, weighted, disabled again) through the public "
-                "API, one white-box weight/index comparison, or one noisy trial; distinct = distinct (type, dimension, sigma_nf, "
+                "API, one white-box weight/index comparison, one white-box p-value comparison, one history of set_m_error calls, or one noisy trial; distinct = distinct (type, dimension, sigma_nf, "
                 "sigma_tr, noise grid, seed-derived data)")
     rec = Recorder(ctx)
     ok, res = ctx.coq_obligations(VFILES)
@@ -696,8 +998,10 @@ def run(ctx):
     part_exact(ctx, rec, exe)
     ctx.log("weight tie")
     tie_ok = part_weight_tie(ctx, rec, wb, drv)
-    ctx.log("dof tie")
-    dof_ok = part_dof_tie(ctx, rec, wb, drv)
+    ctx.log("p-value ties (leakage sample counts, degrees of freedom, statistic, chisq_pvalue, weight formula)")
+    pv_ok = part_pvalue_tie(ctx, rec, wb, drv)
+    ctx.log("set_m_error histories")
+    mh_ok = part_merror_histories(ctx, rec, exe, drv)
     ctx.log("directed")
     part_directed(ctx, rec, exe)
     ctx.log("V matrices walk")
@@ -712,8 +1016,10 @@ def run(ctx):
         log = getattr(ctx, "_last_coq_log", "")
         ctx.unproved("C18:coq", "Coq development of C18 does not build: " + log[-400:],
                      "exact-data scenarios, white-box weight ties and directed scenarios ran without a failing input")
-    if not dof_ok and not ctx.violations:
-        ctx.unproved("tie:dof", "degrees-of-freedom comparison failed", "dof tie cases of this run")
+    if not pv_ok and not ctx.violations:
+        ctx.unproved("tie:pvalue", "p-value / degrees-of-freedom / statistic comparison failed", "p-value tie scenarios of this run")
+    if not mh_ok and not ctx.violations:
+        ctx.unproved("tie:set_m_error_histories", "set_m_error history comparison failed", "histories of this run")
     if not tie_ok and not ctx.violations:
         ctx.unproved("tie:weights", "white-box weight comparison failed", "weight tie cases of this run")
     if not vg_ok and not ctx.violations:
